@@ -9,7 +9,7 @@ import os
 from typing import Any, Dict, List, Optional, Tuple
 
 from . import core, codec
-from .absint import (Budget, CellV, ExcV, Interp, ListV, NONE, OriginV, Seg, Unknown, _Unmodelled)
+from .absint import (Budget, CellV, ExcV, Interp, ListV, NONE, OriginV, Seg, Unknown, _Unmodelled, opaque_path)
 from .codec import (INFO, SER, Consts, OriginModel, describe_path, same_or_refuted, sym_in, valid_id, valid_id_from_guard)
 from .lin import Lin, Sym, compare
 
@@ -42,8 +42,9 @@ def const_call(interp: Interp, rel: str, fn: str, args: List[int]):
 
 
 def _opaque_path(o) -> bool:
-    """the outcome lies on a path whose condition involves a value the interpreter could not model"""
-    return any((c.left.has_opaque() or c.right.has_opaque()) for c, t, _ in o.state.path)
+    """the outcome lies on a path whose condition involves a value the interpreter could not model (or went through a call it did not follow)"""
+    from .absint import opaque_path
+    return opaque_path(o.state)
 
 
 def children_family(interp: Interp, c: Lin, b: Any):
@@ -136,7 +137,7 @@ def check_pair(ctx, su: Setup, a: int, b: int):
     tag = f"{Q}.cell_to_children(res {a} -> {b})"
     rets, raises = children_family(interp, c, Lin(b))
     for o in raises:
-        if any((c.left.has_opaque() or c.right.has_opaque()) for c, t, _ in o.state.path):
+        if opaque_path(o.state):
             ctx.unk("C06.0", f"{tag}: may raise {_exc(o.value)}", core.loc(SER, o.node), f"on a path whose condition is not decided: [{describe_path(o.state)[:200]}]")
             continue
         su.raising.setdefault((b, _exc(o.value)), []).append((a, core.loc(SER, o.node), describe_path(o.state)))
@@ -301,9 +302,30 @@ def check_pair(ctx, su: Setup, a: int, b: int):
             else:
                 ctx.bad("C06.6", f"{tag}: children are not a contiguous ascending run", where,
                         f"child form {e}: step per loop iteration is {coef}, level-{b} ids are spaced by {stride}")
-        elif len(live) > 1:
-            ctx.bad("C06.6", f"{tag}: descendants of a cell of resolution >= 1 come from {len(live)} nested loops", where,
-                    f"binders {[(b2.name, c2) for b2, c2 in live]}: not one contiguous run")
+        elif len(live) > 1 and stride is not None:
+            # several nested loops (one per level, say): the list is one ascending contiguous run iff the loops are nested from the most
+            # significant digit to the least: step(innermost) == stride and step(j) == step(j+1) * count(j+1)
+            coefs = dict((repr(at), cf) for at, cf in e.terms)
+            steps = [coefs.get(bs.name) for bs, _ in live]
+            linear = all(st_ is not None for st_ in steps) and not any(
+                s_.name == bs.name for at, cf in e.terms if repr(at) not in {b2.name for b2, _ in live} for s_ in Lin.of(at).syms() for bs, _ in live)
+            if not linear:
+                ctx.unk("C06.6", f"{tag}: descendants come from {len(live)} nested loops", where,
+                        f"the child id is not linear in the loop variables {[(b2.name, c2) for b2, c2 in live]}: order not decided")
+            else:
+                want_steps = []
+                acc = stride
+                for (_, cnt) in reversed(live):
+                    want_steps.append(acc)
+                    acc *= cnt
+                want_steps.reverse()
+                if steps == want_steps:
+                    ctx.ok("C06.6", f"{tag}: children are {acc // stride} consecutive level-{b} ids in ascending order", where,
+                           f"{len(live)} nested loops, steps {steps} = stride {stride} times the sizes of the inner loops: lexicographic order is numeric order")
+                else:
+                    ctx.bad("C06.6", f"{tag}: children are not a contiguous ascending run", where,
+                            f"child form {e}: the nested loops {[(b2.name, c2) for b2, c2 in live]} (outermost first) step by {steps}; "
+                            f"an ascending run of level-{b} ids needs {want_steps}")
 
 
 def check_parent(ctx, su: Setup, r: int):
@@ -375,7 +397,7 @@ def check_parent(ctx, su: Setup, r: int):
                     pouts = interp.run_function(SER, "cell_to_parent", [x, Lin(a_)])
                 except (Budget, _Unmodelled):
                     continue
-                prets = [o for o in pouts if o.kind == "return" and not o.state.path]
+                prets = [o for o in pouts if o.kind == "return" and not o.state.path and not _opaque_path(o) and not isinstance(o.value, Unknown)]
                 if prets and len(prets) == len(pouts):
                     hit = (a_, prets[0])
                     break
@@ -406,7 +428,7 @@ def check_children_guards(ctx, su: Setup, a: int):
                     prets_, praises_ = children_family(interp, c, Lin(b_))
                 except (Budget, _Unmodelled):
                     continue
-                if prets_ and not praises_ and all(not o.state.path for o in prets_):
+                if prets_ and not praises_ and all(not o.state.path and not _opaque_path(o) and not isinstance(o.value, Unknown) for o in prets_):
                     hit = (b_, prets_[0])
                     break
             if hit is not None:
